@@ -46,6 +46,7 @@ fn target_strategy() -> impl Strategy<Value = String> {
         2 => proptest::collection::vec(printable_char(), 1..200).prop_map(|v| v.into_iter().collect::<String>()),
         1 => Just("*".to_string()),
         1 => Just("/".to_string()),
+        1 => crate::fw::greq::long_text().prop_map(|b| format!("/{}", String::from_utf8_lossy(&b.0).replace(' ', "_"))),
     ]
 }
 
@@ -78,6 +79,8 @@ fn header_value() -> impl Strategy<Value = String> {
         1 => Just("a: b".to_string()),
         1 => Just("bytes=0-1, 5-: x".to_string()),
         1 => proptest::collection::vec(printable_char(), 100..400).prop_map(|v| v.into_iter().collect::<String>()),
+        // lengths around 64 .. 8192, single- and multi-byte characters
+        1 => crate::fw::greq::long_text().prop_map(|b| String::from_utf8_lossy(&b.0).to_string()),
     ]
 }
 
